@@ -64,9 +64,99 @@ def gen_cases(ctx):
         yield s
 
 
+ROLES = [  # (role, validator kind, constructor taking the string in that role)
+    ('call.path', 0), ('call.interface', 1), ('call.member', 4), ('call.destination', 3),
+    ('signal.path', 0), ('signal.interface', 1), ('signal.member', 4), ('signal.destination', 3),
+    ('error.error_name', 2), ('error.destination', 3), ('return.destination', 3),
+]
+
+
+def construct(message, role, s):
+    """Build a message with s in the given role, every other coordinate valid. 1 = constructed, 0 = MarshallingError."""
+    from txdbus import error
+    try:
+        if role == 'call.path':
+            m = message.MethodCallMessage(s, 'M')
+        elif role == 'call.interface':
+            m = message.MethodCallMessage('/a', 'M', interface=s)
+        elif role == 'call.member':
+            m = message.MethodCallMessage('/a', s)
+        elif role == 'call.destination':
+            m = message.MethodCallMessage('/a', 'M', destination=s)
+        elif role == 'signal.path':
+            m = message.SignalMessage(s, 'M', 'a.b')
+        elif role == 'signal.interface':
+            m = message.SignalMessage('/a', 'M', s)
+        elif role == 'signal.member':
+            m = message.SignalMessage('/a', s, 'a.b')
+        elif role == 'signal.destination':
+            m = message.SignalMessage('/a', 'M', 'a.b', destination=s)
+        elif role == 'error.error_name':
+            m = message.ErrorMessage(s, 1)
+        elif role == 'error.destination':
+            m = message.ErrorMessage('a.Err', 1, destination=s)
+        elif role == 'return.destination':
+            m = message.MethodReturnMessage(1, destination=s)
+        else:
+            raise ValueError(role)
+        return 1 if m.rawMessage is not None else 'no-bytes'
+    except error.MarshallingError:
+        return 0
+    except Exception as e:
+        return 'exc:' + type(e).__name__
+
+
+def evaluate_ctor(ctx, cases, res):
+    """cases: ['ctor', s, [role indices in the order to try]]: the same string is offered to the message
+    constructors in several roles, one after the other in one process (a validation result remembered from one
+    role must not leak into another); each must construct iff the grammar of that role's validator accepts."""
+    from txdbus import message
+    if not cases:
+        return
+    outs = common.run_model(['(18 %s)' % common.dump(c[1]) for c in cases])
+    n = 0
+    for c, o in zip(cases, outs):
+        s = c[1]
+        for ri in c[2]:
+            role, kind = ROLES[ri]
+            g = o[kind][2]
+            i = construct(message, role, s)
+            n += 1
+            res.count(['ctor', role, s], nontrivial=True)
+            if i != g:
+                res.violate(['ctor', s, c[2][:c[2].index(ri) + 1]],
+                            'constructor %s with %r as %s (tried after roles %r) but the grammar %s it'
+                            % ('succeeds' if i == 1 else ('raises %s' % i if i != 0 else 'refuses'), s, role,
+                               [ROLES[x][0] for x in c[2][:c[2].index(ri)]], 'accepts' if g else 'rejects'),
+                            'constructor:%s:%s' % (role, 'carries-invalid' if i == 1 else 'refuses-valid'))
+    res.extra['constructor_attempts'] = res.extra.get('constructor_attempts', 0) + n
+
+
+def gen_ctor_cases(ctx):
+    rng = ctx.rng
+    pool = ['Ping', 'a.b', 'a.b.c', ':1.42', ':1.2.3', 'org.example.my-app', 'a-b.c', '/a', '/', '/a/b', 'a', 'M1', '_x', 'a_b.c1',
+            'a.b-c', '1a', 'a.1b', ':a.1', '', '.', 'a.', ':1.', 'a..b', '/a/', '//', 'a b', 'a.b!', 'é.b', 'x' * 255, 'a.' + 'b' * 253,
+            'a.' + 'b' * 254, ':' + '1.' * 127 + '1', 'm' * 256, '/' + 'p' * 300, 'org.freedesktop.DBus', 'org.freedesktop.DBus.Error.Failed']
+    for n in range(0, ctx.n(3, 4)):
+        for t in itertools.product(ALPHABET[:7], repeat=n):
+            pool.append(''.join(t))
+    for s in pool:
+        order = list(range(len(ROLES)))
+        yield ['ctor', s, order]
+        yield ['ctor', s, order[::-1]]
+        rng.shuffle(order)
+        yield ['ctor', s, list(order)]
+
+
 def evaluate(ctx, cases, res):
     from txdbus import marshal, error
     cases = list(cases)
+    ctor = [c for c in cases if isinstance(c, (list, tuple)) and c and c[0] == 'ctor']
+    # a replayed validator case is [kind, string]
+    cases = [(c[1] if isinstance(c, (list, tuple)) else c) for c in cases if not (isinstance(c, (list, tuple)) and c and c[0] == 'ctor')]
+    evaluate_ctor(ctx, ctor, res)
+    if not cases:
+        return
     lines = ['(18 %s)' % common.dump(s) for s in cases]
     outs = common.run_model(lines)
     legacy_diff = 0
@@ -101,8 +191,8 @@ def evaluate(ctx, cases, res):
 def run(ctx, res):
     res.rule = ('every string of length <= %d over the 9-class alphabet %r, every string of length <= 3 over an '
                 'extended alphabet, the 253..257 length boundary, and random structured/mutated names; each fed to '
-                'all five validators; a case is (validator, string); non-trivial = non-empty string; distinct by hash'
-                % (ctx.n(5, 6), ALPHABET))
-    evaluate(ctx, gen_cases(ctx), res)
+                'all five validators; plus message constructors offered the same string in each of %d roles in three orders (a verdict must not leak between roles); a case is (validator, string) or (constructor role, string); non-trivial = non-empty string; distinct by hash'
+                % (ctx.n(5, 6), ALPHABET, len(ROLES)))
+    evaluate(ctx, list(gen_cases(ctx)) + list(gen_ctor_cases(ctx)), res)
     res.exhaustive = True
     res.extra['exhaustive_scope'] = 'strings of length <= %d over the 9-class alphabet (plus random beyond)' % ctx.n(5, 6)
